@@ -975,8 +975,9 @@ def simplifications(case):
 RULE = (
     "one case = one seeded run: a recipe (DAG of library objects built from raw arrays: masks, arrays, grids, vectors, kernels, visibilities, imaging datasets, "
     "masked/trimmed datasets, mappers, linear function lists, inversions through the aa.Inversion factory, fits, valued mappers, simulators) and a schedule of 20-60 "
-    "operations issued by 2-6 interleaved clients (property reads over the INTROSPECTED readable set, curated query calls, derivations by arithmetic/slicing/copy/"
-    "apply_mask/trim, mid-history constructions from caller-owned arrays) plus environment events (cache eviction, global-RNG perturbation, solver failure). "
+    "operations issued by 2-6 interleaved clients (property reads over the INTROSPECTED readable set, curated query calls incl. the classmethod constructors, derivations by "
+    "arithmetic/slicing/copy/apply_mask/trim, mid-history constructions from caller-owned arrays and lists) plus environment events (cache eviction, global-RNG perturbation, "
+    "solver failure). coverage.query_calls lists, per Type.query, how often a call returned a value or raised which exception. "
     "A case is non-trivial when (>= 2 clients interleaved or >= 1 fault fired) AND >= 5 reads were compared against a pristine twin with a non-exception value on both sides; "
     "distinct = distinct SHA-1 of (node kinds of the recipe, sequence of (operation, node kind, target type, quantity))."
 )
@@ -984,7 +985,8 @@ STATE_MEASURE = "distinct (type, frozenset of populated cached-property names) p
 EXPECTED_PROBES = ["derived_while_source_cache_populated", "reference_read_repeated_on_second_twin", "seeded_simulation_compared", "solver_failure_then_recovery"]
 STUBS = [
     "FuncList: 4-line user subclass of AbstractLinearObjFuncList returning a given mapping matrix",
-    "FitStub: subclass of FitImaging returning a given model_data / a given inversion",
+    "FitStub: subclass of FitImaging returning a given model_data / a given inversion and, optionally, a scaled noise-map (the documented override)",
+    "ProfileStub: a user object with @over_sample / @to_array / @to_grid decorated functions of a grid, as light and mass profiles are downstream; sim/config_extras/grids.yaml gives it the adaptive over-sampling scheme a downstream package ships (searched after the library's own config)",
     "SimClock behind autoarray.numba_util.time when the profiling knob is on",
     "pylops stand-in: a 3-line `pylops.LinearOperator` base class installed before `import autoarray` so that TransformerDFT / Interferometer / InversionInterferometerMapping construct and run their own numpy code; pylops' solvers are not provided and never exercised",
     "numba absent: every @jit function runs as the Python it is written in; pynufft and the Voronoi C library absent: no TransformerNUFFT or MapperVoronoi nodes",
